@@ -28,64 +28,68 @@ type Obligation struct {
 	Reach     Term
 	Goal      Term
 	ExpectSat bool
+	PreMark   int  // cover/call: prefix length before the call (0 = none)
+	PreReach  Term // cover/call: reachability before the call
 	Evals     []NamedTerm
 	Pos       string
 	vc        *VC
 	// result
-	Status  string // proved, refuted, unknown
-	Solver  string
-	TimeS   float64
-	Model   map[string]string
-	Output  string
+	Status string // proved, refuted, unknown
+	Solver string
+	TimeS  float64
+	Model  map[string]string
+	Output string
 }
 
 // VC is the verification-condition generator for one function under contract.
 type VC struct {
-	eng         *Engine
-	q           *Query
-	bv          bool
-	fn          *ssa.Function
-	con         *Contract
-	obls        []*Obligation
-	structSorts map[string]Sort
-	memSorts    map[string]Sort
-	ngen        int
-	strLits     map[string]Term
-	strLitList  []string
-	oblCount    map[string]int
-	assumed     map[string]bool
-	warnings    []string
-	top         *Frame
-	ninst       int
-	concurrent  bool
-	guarantee   map[string]SExpr
-	exitReach   Term
-	boxes       map[string]bool
-	pureFns     map[string]bool
-	quick       bool
-	globalRoots []Term
-	havocked    map[string]bool
+	eng           *Engine
+	q             *Query
+	bv            bool
+	fn            *ssa.Function
+	con           *Contract
+	obls          []*Obligation
+	structSorts   map[string]Sort
+	memSorts      map[string]Sort
+	ngen          int
+	strLits       map[string]Term
+	strLitList    []string
+	oblCount      map[string]int
+	callCovers    int
+	callAssertHit map[*CallAssert]bool
+	assumed       map[string]bool
+	warnings      []string
+	top           *Frame
+	ninst         int
+	concurrent    bool
+	guarantee     map[string]SExpr
+	exitReach     Term
+	boxes         map[string]bool
+	pureFns       map[string]bool
+	quick         bool
+	globalRoots   []Term
+	havocked      map[string]bool
 	usedContracts map[string]bool
-	assumedFacts map[string]bool
-	bindErrors  []string
-	specDepth   int
-	safety      bool
-	dynSig      *types.Signature
-	modBody     map[*ssa.BasicBlock]bool
-	modLocals   map[*ssa.Alloc]map[string]bool
-	modCells    []modCell
+	assumedFacts  map[string]bool
+	bindErrors    []string
+	specDepth     int
+	safety        bool
+	dynSig        *types.Signature
+	modBody       map[*ssa.BasicBlock]bool
+	modLocals     map[*ssa.Alloc]map[string]bool
+	modCells      []modCell
 }
 
 type loopInfo struct {
-	header   *ssa.BasicBlock
-	ordinal  int
-	body     map[*ssa.BasicBlock]bool
-	headSt   *State          // state right after havoc + invariant assumption
-	headVals map[*ssa.Phi]Term
-	variant  Term
-	hasVar   bool
-	modLocals map[*ssa.Alloc]map[string]bool
-	modCells  []modCell
+	header     *ssa.BasicBlock
+	ordinal    int
+	body       map[*ssa.BasicBlock]bool
+	headSt     *State // state right after havoc + invariant assumption
+	headVals   map[*ssa.Phi]Term
+	variant    Term
+	hasVar     bool
+	modLocals  map[*ssa.Alloc]map[string]bool
+	modCells   []modCell
 	frameNames []string
 }
 
@@ -95,39 +99,39 @@ type deferred struct {
 }
 
 type iterInfo struct {
-	mapT   *types.Map
-	m      Term
-	keys   Term // Array Int K
-	n      Term
-	name   string // L_ name of the position variable
-	isStr  bool
-	posFn  string
+	mapT     *types.Map
+	m        Term
+	keys     Term // Array Int K
+	n        Term
+	name     string // L_ name of the position variable
+	isStr    bool
+	posFn    string
 	dom, val Term
-	sums   map[string]string // spec func name -> SMT prefix-sum function
+	sums     map[string]string // spec func name -> SMT prefix-sum function
 }
 
 type Frame struct {
-	vc        *VC
-	fn        *ssa.Function
-	con       *Contract
-	prefix    string
-	vals      map[ssa.Value]Term
-	tuples    map[ssa.Value][]Term
-	closures  map[ssa.Value]*ssa.MakeClosure
-	depth     int
-	entry     *State
-	params    []Term
+	vc         *VC
+	fn         *ssa.Function
+	con        *Contract
+	prefix     string
+	vals       map[ssa.Value]Term
+	tuples     map[ssa.Value][]Term
+	closures   map[ssa.Value]*ssa.MakeClosure
+	depth      int
+	entry      *State
+	params     []Term
 	localRoots []Term
-	defers    []deferred
-	loops     map[*ssa.BasicBlock]*loopInfo
-	iters     map[ssa.Value]*iterInfo
-	freeVars  map[*ssa.FreeVar]Term
-	parent    *Frame
+	defers     []deferred
+	loops      map[*ssa.BasicBlock]*loopInfo
+	iters      map[ssa.Value]*iterInfo
+	freeVars   map[*ssa.FreeVar]Term
+	parent     *Frame
 	nilChecked map[ssa.Value]*ssa.BasicBlock
-	lets      map[string]Bound
-	callStack []*ssa.Function
-	curBlock  *ssa.BasicBlock
-	exits     []*exitInfo
+	lets       map[string]Bound
+	callStack  []*ssa.Function
+	curBlock   *ssa.BasicBlock
+	exits      []*exitInfo
 }
 
 type Bound struct {
